@@ -117,16 +117,85 @@ type Desc struct {
 	// WriteFault: the WriteFault-th transport write (1-based) fails once with a transient error and
 	// nothing of it reaches the server; every other write works (0 = no fault).
 	WriteFault int `json:"write_fault,omitempty"`
+	// HelloDelayMs > 0: the server does not send its hello at open but HelloDelayMs later - or at the
+	// client's first write if that comes earlier (both peers may send their hello at once, RFC 6241
+	// 8.1); HelloPlace says where it then goes relative to the echo of that write: "hello-first"
+	// (a message of its own), "same-read" (hello and echo contiguous, no message mark between them),
+	// "echo-first".
+	HelloDelayMs int    `json:"hello_delay_ms,omitempty"`
+	HelloPlace   string `json:"hello_place,omitempty"`
+	// CloseErr: the transport's Close returns an error (after closing).
+	CloseErr bool `json:"close_err,omitempty"`
+}
+
+// timedDev wraps the server model: it decides when the server's hello goes out.
+type timedDev struct {
+	srv      *ncsim.Server
+	hello    []byte
+	delayed  bool
+	place    string
+	sent     bool
+	sentOnRx bool // the hello was triggered by a client write, not by the timer
+}
+
+func (t *timedDev) State() string { return t.srv.State() }
+
+func (t *timedDev) Start(c *devsim.Conn) {
+	if !t.delayed {
+		t.emit(c, true)
+	}
+}
+
+func (t *timedDev) emit(c *devsim.Conn, mark bool) {
+	if t.sent {
+		return
+	}
+	t.sent = true
+	c.Emit(t.hello)
+	if mark {
+		c.Mark()
+	}
+}
+
+func (t *timedDev) Input(c *devsim.Conn, b []byte) {
+	if t.sent {
+		t.srv.Input(c, b)
+		return
+	}
+	t.sentOnRx = true
+	switch t.place {
+	case "same-read":
+		t.emit(c, false)
+		t.srv.Input(c, b)
+	case "echo-first":
+		t.srv.Input(c, b)
+		t.emit(c, true)
+	default:
+		t.emit(c, true)
+		t.srv.Input(c, b)
+	}
 }
 
 // faultyConn is the transport handed to the library: devsim.Conn plus a one-shot write fault
 // (devsim's WriteErrN is permanent).
 type faultyConn struct {
 	*devsim.Conn
-	mu     sync.Mutex
-	failAt int
-	writes int
-	fired  int
+	mu       sync.Mutex
+	failAt   int
+	writes   int
+	fired    int
+	closeErr error
+}
+
+var errClose = errors.New("c09: close: use of closed network connection (injected)")
+
+// Close closes the model and then reports the configured error.
+func (f *faultyConn) Close() error {
+	err := f.Conn.Close()
+	if f.closeErr != nil {
+		return f.closeErr
+	}
+	return err
 }
 
 var errTransient = errors.New("c09: write: resource temporarily unavailable (injected once)")
@@ -526,6 +595,51 @@ func gen(tier string, seed int64) []mon.Case {
 			}
 		}
 	}
+	// --- server hello timing x echo x placement, all cells (+ no-hello); transport whose Close fails
+	perTiming, perClose := 2, 5
+	if tier == "thorough" {
+		perTiming, perClose = 25, 100
+	}
+	r3 := rand.New(rand.NewSource(seed*7919 + 9909))
+	timed := func(d Desc, k int, place string) Desc {
+		d.HelloDelayMs = []int{3, 20, 60}[k%3]
+		d.HelloPlace = place
+		if place == "same-read" && r3.Intn(2) == 0 {
+			// make a read that spans the end of the hello and the echo likely
+			d.Seg.Mode, d.Seg.Size = "whole", 1000
+		}
+		return d
+	}
+	for k := 0; k < perTiming; k++ {
+		for _, c := range cells {
+			for _, echo := range []bool{false, true} {
+				for _, place := range []string{"hello-first", "same-read", "echo-first"} {
+					add(timed(GenDesc(r3, c, echo, -1), k, place))
+				}
+			}
+		}
+		for pi, p := range []string{"", "1.0", "1.1"} {
+			for ei, echo := range []bool{false, true} {
+				add(timed(genNoHello(r3, noHelloKinds[(k+pi)%len(noHelloKinds)], p, echo), k, []string{"hello-first", "same-read", "echo-first"}[(k+pi+ei)%3]))
+			}
+		}
+	}
+	for k := 0; k < perClose; k++ {
+		for _, c := range cells {
+			d := GenDesc(r3, c, k%2 == 1, -1)
+			d.CloseErr = true
+			add(d)
+		}
+	}
+	for k := 0; k < (perClose+4)/5; k++ {
+		for _, kind := range noHelloKinds {
+			for _, p := range []string{"", "1.0", "1.1"} {
+				d := genNoHello(r3, kind, p, (k+len(p))%2 == 1)
+				d.CloseErr = true
+				add(d)
+			}
+		}
+	}
 	return cs
 }
 
@@ -705,7 +819,7 @@ func RunDesc(d Desc) mon.Result {
 
 	// --- the server model; after the hellos it speaks the version the table says
 	token := fmt.Sprintf("probe-%08x", uint32(d.Seg.Seed))
-	srv := &ncsim.Server{HelloBytes: hello, Echo: d.Echo, Version: "1.0"}
+	srv := &ncsim.Server{Echo: d.Echo, Version: "1.0"} // the hello is sent by timedDev
 	if want == "1.1" {
 		srv.Version = "1.1"
 	}
@@ -720,9 +834,13 @@ func RunDesc(d Desc) mon.Result {
 		}
 		s.Send(cn, p, sizes)
 	}
-	conn := devsim.NewConn(srv, devsim.Config{Seg: d.Seg, KeepData: true})
+	dev := &timedDev{srv: srv, hello: hello, delayed: d.HelloDelayMs > 0, place: d.HelloPlace}
+	conn := devsim.NewConn(dev, devsim.Config{Seg: d.Seg, KeepData: true})
 	defer conn.Abandon()
 	fc := &faultyConn{Conn: conn, failAt: d.WriteFault}
+	if d.CloseErr {
+		fc.closeErr = errClose
+	}
 
 	opts := []util.Option{
 		options.WithCustomTransport(fc),
@@ -795,8 +913,30 @@ func RunDesc(d Desc) mon.Result {
 		tags = append(tags, fmt.Sprintf("write-fault-at=%d", d.WriteFault))
 	}
 
+	if d.HelloDelayMs > 0 {
+		obs["delayed_hello_sessions"] = 1
+		tags = append(tags, fmt.Sprintf("hello-delay=%dms", d.HelloDelayMs), "hello-place="+d.HelloPlace)
+		tm := time.AfterFunc(time.Duration(d.HelloDelayMs)*time.Millisecond, func() {
+			conn.Do(func() { dev.emit(conn, true) })
+		})
+		defer tm.Stop()
+	}
+	if d.CloseErr {
+		obs["close_error_sessions"] = 1
+		tags = append(tags, "transport-close-fails")
+	}
+
 	t0 := time.Now()
 	err = drv.Open()
+	if d.HelloDelayMs > 0 {
+		conn.Do(func() {
+			if dev.sentOnRx {
+				obs["hello_sent_on_client_write"] = 1
+			} else if dev.sent {
+				obs["hello_sent_by_timer"] = 1
+			}
+		})
+	}
 	faultInOpen := fc.firedN() > 0
 	if faultInOpen {
 		obs["write_faults_fired_during_open"] = 1
@@ -846,13 +986,22 @@ func RunDesc(d Desc) mon.Result {
 		case timedOut(err):
 			judgeTimeout("open", err, len(hello))
 		default:
-			bad(0, "c09/error-class:"+cellName, "Open failed with %v, which is not a NETCONF error", err)
+			k := "c09/error-class:" + cellName
+			if d.CloseErr {
+				k = "c09/error-class:close-error:" + cellName
+			}
+			bad(0, k, "Open failed with %v, which is not a NETCONF error", err)
 		}
 		if err != nil {
-			if conn.CloseCalls() < 1 {
+			if n := conn.CloseCalls(); n < 1 {
 				bad(2, "c09/transport-left-open:"+cellName, "Open failed (%v) but the transport's Close was never called", err)
+			} else if n > 1 {
+				bad(3, "c09/transport-closed-more-than-once", "Open failed (%v) and closed the transport %d times", err, n)
 			} else {
 				obs["transport_closed_on_failure"] = 1
+				if d.CloseErr {
+					obs["failed_open_with_failing_close"] = 1
+				}
 			}
 			var w []byte
 			conn.Do(func() { w = append(w, srv.Wire...) })
@@ -1130,7 +1279,9 @@ func init() {
 			"first message without hello element x 3 preferences); per cell PRNG-generated hellos (XML declaration or none, one-line / multi-line / indented, nc: prefix on every element or none, " +
 			"0-40 extra capabilities incl. URNs that merely contain a base URN, shuffled order, duplicates, session-id 1..2^32-1 before/after the capabilities or absent, every 5th case a zero-padded lexical form (01, 010, 08, 0000000019, 00004294967295, ...), LF around the delimiter) " +
 			"x echo on/off x read segmentation x read delay. Extra sessions: ServerHasCapability/ServerCapabilities/SessionID lookups on the driver before Open (both base URNs in every combination, " +
-			"capabilities of the hello, look-alikes, absent ones) and repeated lookups after Open judged against the hello sent; a one-shot transport write error at write 1, 2 (the open sequence) and 3 for every succeeding cell x echo. Non-trivial = prefixed element names, or the server's first message delivered in >= 2 transport reads, or a cell that must fail. " +
+			"capabilities of the hello, look-alikes, absent ones) and repeated lookups after Open judged against the hello sent; a one-shot transport write error at write 1, 2 (the open sequence) and 3 for every succeeding cell x echo; " +
+			"server hello sent 3/20/60 ms after open or at the client's first write, whichever is earlier, x echo on/off x placement relative to the echo (own message before it / contiguous with it / after it) for all cells; " +
+			"transport whose Close returns an error for all cells and hello-less messages. Non-trivial = prefixed element names, or the server's first message delivered in >= 2 transport reads, or a cell that must fail. " +
 			"Distinct = distinct descriptor hash.",
 		Assumptions: []string{
 			"the server's first message is complete, framed with the end-of-message delimiter, LF-only (no CR), and arrives without transport faults (stalls/EOF are C05/C06)",
@@ -1140,6 +1291,8 @@ func init() {
 			"expected outcome = the 12-cell table written from the property statement, applied to the capability list that encoding/xml reads from the bytes the server sent (exact URI equality)",
 			"before Open the only sound answers are: no capability, empty list, session-id 0, no version; re-opening a driver object after a failed Open or a Close is not exercised (the pinned channel cannot be opened twice: close-once, read-loop-exited flag and exited channel are never reset)",
 			"write faults: exactly one transport write fails (nothing of it reaches the server), all others work; Open may then fail with any error (transport must be closed) or succeed - if it succeeds every clause of a successful open is judged, in particular exactly one client hello and nothing but returns before the first rpc",
+			"server hello timing: the server sends its hello unconditionally within 60 ms (far below the 10 s timeout); a server that withholds its hello until it has the client's is outside (the property does not say whether Open must speak first; the pinned Open reads first and would time out - C05's subject)",
+			"a transport Close that returns an error has nevertheless closed; the error identity of a failing negotiation and exactly one transport Close are judged all the same",
 			"trusted base: ncwire strict codec, ncsim server model, encoding/xml, the table (12 lines)",
 			"timeouts 10 s (open) / 6 s (rpc); a timeout is judged only if every needed byte had been delivered and the load canary is quiet, else inconclusive",
 		},
